@@ -374,6 +374,22 @@ def run(chk):
                     elif r1[0] == 'ok':
                         chk.nontrivial.add('conv:' + c1)
     chk.distribution['function conversion pairs compared'] = nconv
+    # the EQName form Q{http://www.w3.org/2001/XMLSchema}integer of a type name: accepted by instance of / treat as / cast as, but
+    # not inside function signatures and map / array tests (recorded finding)
+    XSQ = 'Q{http://www.w3.org/2001/XMLSchema}'
+    for expr, want in ((f'5 instance of {XSQ}integer', ('ok', [('bool', 'True')])), (f"'5' cast as {XSQ}integer", ('ok', [('Integer', '5')])), (f'5 treat as {XSQ}integer', ('ok', [('int', '5')])),
+                       (f'function($x as {XSQ}integer) {{ $x }}(2)', ('ok', [('int', '2')])), (f'function($x) as {XSQ}integer {{ $x }}(2)', ('ok', [('int', '2')])),
+                       (f"map{{'a': 1}} instance of map({XSQ}string, {XSQ}integer)", ('ok', [('bool', 'True')])), (f'[1] instance of array({XSQ}integer)', ('ok', [('bool', 'True')])),
+                       (f'abs#1 instance of function({XSQ}integer) as item()*', ('ok', [('bool', 'False')]))):
+        chk.evaluations += 1
+        chk.count('eqname-type')
+        got = run5(expr)
+        if got != want:
+            if got == ('err',) and ('function(' in expr or 'map(' in expr or 'array(' in expr):
+                chk.known('C18-eqname-in-signatures', {'expr': expr, 'impl': 'XPST0003', 'spec': repr(want)})
+            else:
+                chk.violation('impl-vs-spec', {'expr': expr}, {'impl': repr(got)[:200], 'spec': repr(want)})
+        chk.nontrivial.add('eqname:' + expr)
     # the same rules for inline functions with a typed parameter: function($p as T) { $p }(node) = (untyped string value) = T(s)
     for tname, svs in VALS.items():
         if tname == 'xs:numeric':
